@@ -5,6 +5,7 @@ package merge
 
 import (
 	"bytes"
+	"fmt"
 	"sort"
 
 	"github.com/wrgl/wrgl/pkg/diff"
@@ -61,7 +62,12 @@ func (r *RowResolver) tryResolve(m *Merge) (err error) {
 	layersWhereRowIsRemoved := []int{}
 	for i, sum := range m.Others {
 		if sum != nil {
-			uniqSums[string(sum)] = i
+			key := string(sum)
+			if len(r.cd.Added[i]) > 0 || len(r.cd.Removed[i]) > 0 {
+				// the same bytes mean something else under another column layout
+				key = fmt.Sprintf("%s/%d", key, i)
+			}
+			uniqSums[key] = i
 		} else {
 			layersWhereRowIsRemoved = append(layersWhereRowIsRemoved, i)
 		}
